@@ -76,6 +76,10 @@ func c01(r *rep.Run) {
 				for ev := 0; ev < evModes; ev++ {
 					o := drive.Opt{Undef: undef, Events: ev, Infix: p.Infix}
 					cfg := h.NewConfig(pa.Vars, o)
+					// the config has just been used for the same source under an
+					// in-source directive that switches every optimisation on: that
+					// directive belongs to that compilation only
+					_, _ = h.Compile(cfg, ";;;; optimize: true\n"+pa.Src, eventCap(p.Size))
 					e, err := h.Compile(cfg, pa.Src, eventCap(p.Size))
 					if err != nil {
 						r.Violate("compile", pa.Src, sprintf("well-formed program does not compile: %v", err), caseDesc(pa.Src, o, nil, nil, nil, nil))
